@@ -66,6 +66,11 @@ impl Field for Ed448ScalarField {
     }
 
     fn deserialize(buf: &Self::Serialization) -> Result<Self::Scalar, FieldError> {
+        // The RFC 8032 encoding has 57 bytes and the last one is always zero for
+        // a canonical scalar; `from_canonical_bytes` does not look at it.
+        if buf.last() != Some(&0) {
+            return Err(FieldError::MalformedScalar);
+        }
         match EdwardsScalar::from_canonical_bytes(buf.into()).into() {
             Some(s) => Ok(s),
             None => Err(FieldError::MalformedScalar),
